@@ -1,5 +1,6 @@
 #define _GNU_SOURCE
 #include <sys/mman.h>
+#include <sys/prctl.h>
 #include <sys/wait.h>
 #include <sys/syscall.h>
 
@@ -323,6 +324,7 @@ vf_run_isolated(void (*fn)(void *), void * arg, char * sig, size_t siglen, char 
 	fflush(stdout);
 	if ((pid = fork()) == 0) {
 		int fd = open(path, O_WRONLY | O_CREAT | O_TRUNC, 0644);
+		prctl(PR_SET_PDEATHSIG, SIGKILL);
 		if (fd >= 0) { dup2(fd, 2); close(fd); }
 		fn(arg);
 		fflush(stdout);
@@ -345,6 +347,7 @@ static void
 worker_main(int slot)
 {
 	char path[512]; int fd; uint64_t u;
+	prctl(PR_SET_PDEATHSIG, SIGKILL);	/* never outlive the coordinating process */
 	myslot = slot; samples_offered = 0;
 	stderr_path(path, sizeof(path), slot);
 	fd = open(path, O_WRONLY | O_CREAT | O_TRUNC, 0644);
